@@ -7,8 +7,8 @@
 //!
 //! Accounting of sweeps: `ctx.case` keeps a hash set of every distinct case, which is not feasible for
 //! 10^9 arguments, so a sweep adds its totals to `ctx.evaluations`, `ctx.subchecks`, `ctx.classes`
-//! directly and records {points, nontrivial, failing} in the note `sweep:<sub>`; only the enumerated
-//! cases appear in `distinct_nontrivial`.
+//! directly and records {points, nontrivial, failing} in the note `sweep:<sub>`; distinct non-trivial
+//! sweep points are counted conservatively through the engine's bitmap sketch (a lower bound).
 
 use crate::engine::{self, catch, fail, Ctx, Hx, R};
 use serde::{Deserialize, Serialize};
@@ -164,6 +164,7 @@ pub fn sweep(ctx: &mut Ctx, subs: &[&PointSub], n: u64, gen: &(dyn Fn(u64) -> (f
     let chunk: u64 = (n / 1024).clamp(1 << 12, 1 << 21);
     let nchunks = (n + chunk - 1) / chunk;
     let ids: Vec<u64> = (0..nchunks).collect();
+    let sketch = ctx.sketch();
     let outs: Vec<Vec<SubOut>> = engine::par_map(&ids, 16, |_, &c| {
         let mut o: Vec<SubOut> = vec![SubOut::default(); subs.len()];
         let lo = c * chunk;
@@ -172,6 +173,9 @@ pub fn sweep(ctx: &mut Ctx, subs: &[&PointSub], n: u64, gen: &(dyn Fn(u64) -> (f
             let (x, y) = gen(i);
             for (k, ps) in subs.iter().enumerate() {
                 if let Some(p) = eval(ps, x, y) {
+                    if p.nontrivial {
+                        sketch.insert(engine::case_fingerprint(ps.sub, Hx::new().f(x).f(y).finish()));
+                    }
                     o[k].add(i, x, y, p);
                 }
             }
